@@ -255,6 +255,7 @@ package scipipe
 
 //@ func (*Task).anyOutputsExist(t) (anyFileExists)
 //@   props C02 C03
+//@   replay fsread
 //@   ensures def: anyFileExists <==> exists k string :: nonStreamOut(t, k) && statOK(fsEpoch, t.OutIPs[k].path)
 //@   loop 0 invariant vis: forall k string :: $visited[k] ==> k in t.OutIPs
 //@   loop 0 invariant acc: anyFileExists <==> exists k string :: $visited[k] && !t.OutIPs[k].doStream && statOK(fsEpoch, t.OutIPs[k].path)
@@ -1461,6 +1462,7 @@ package scipipe
 
 //@ func (*FileIP).Exists(ip) (res)
 //@   props C02
+//@   replay fsread
 //@   modifies locked
 //@   ensures def: res <==> statOK(fsEpoch, ip.path)
 
@@ -1608,6 +1610,7 @@ package scipipe
 
 //@ func (*FileIP).FifoFileExists(ip) (res)
 //@   props C03 C17
+//@   replay fsread
 //@   modifies locked
 //@   ensures def: res <==> statOK(fsEpoch, ip.path + ".fifo")
 
